@@ -30,7 +30,7 @@ ASSUMPTIONS = [
 ]
 
 ALL_CLASSES = ("fresh", "fresh", "group", "existing-same", "existing-diff", "existing-diff", "region-aligned", "region-aligned", "region-aligned", "sharded", "region-misaligned", "existing-smaller", "existing-larger", "existing-dtype")
-REJECT = ("region-misaligned", "existing-smaller", "existing-larger-unaligned")
+REJECT = ("region-misaligned", "existing-smaller", "existing-larger-unaligned", "region-malformed:short-tuple")
 
 
 def case_strategy(opts=None, max_ops=4):
